@@ -185,7 +185,7 @@ def main():
         }, {
             "name": "vcheck-extras", "path": "/verif/vcheck",
             "serves_properties": [],
-            "kind_free_text": "specifications grown beyond the listed properties, same pipeline, run as ./vcheck X01 (token-bucket rate limiter, spec/rate), ./vcheck X02 (context cancellation tree, spec/context), ./vcheck X03 (the library's RTMP writer validated chunk by chunk against RtmpChunk's reference receiver, spec/rtmp/Trace_RtmpWriter.tla); they are not properties of properties.jsonl and therefore not listed under checks",
+            "kind_free_text": "specifications grown beyond the listed properties, same pipeline, run as ./vcheck X01 (token-bucket rate limiter, spec/rate), ./vcheck X02 (context cancellation tree, spec/context), ./vcheck X03 (the library's RTMP writer validated chunk by chunk against RtmpChunk's reference receiver, spec/rtmp/Trace_RtmpWriter.tla), ./vcheck X04 (ACME client validated against spec/acme/Acme.tla), ./vcheck X05 (websocket session lifecycle and negotiation, spec/wslife/WsLife.tla); they are not properties of properties.jsonl and therefore not listed under checks",
         }],
         "checks": checks,
         "not_applicable": [{"property_id": p, "reason": NOT_YET} for p in ALL if p not in CHECKS],
